@@ -175,7 +175,11 @@ def validate(ctx, trace, module="RelocTrace"):
         idx = int(idx_s)
         ev = json.loads(json.loads(js))
         ctx.cov["traces_validated_against_impl"] += idx - 1
-        ctx.violation("trace:%s:%s:%s" % (ev.get("ev"), ev.get("sec"), ev.get("why", "")),
+        if ev.get("ev") == "WOutcome":
+            sig = "trace:WOutcome:v%s:variant%s:recorded-%s:direct-%s" % (ev.get("ver"), ev.get("variant"), ev.get("rec"), ev.get("dir"))
+        else:
+            sig = "trace:%s:%s:%s" % (ev.get("ev"), ev.get("sec"), ev.get("why", ""))
+        ctx.violation(sig,
                       "event not explainable by Reloc.tla: %s" % json.dumps(ev)[:1500], ev, None)
         pos += idx
         if runs > 40:
